@@ -28,6 +28,7 @@ const (
 	NFSERR_BADHANDLE   = 10001 // Invalid file handle
 	NFSERR_NOT_SYNC    = 10002 // Update synchronization mismatch (sattrguard3)
 	NFSERR_NOTSUPP     = 10004 // Operation not supported
+	NFSERR_TOOSMALL    = 10005 // Buffer or request is too small
 	NFSERR_JUKEBOX     = 10008 // Server busy, try again later (used during policy drain)
 	NFSERR_DELAY       = 10008 // Server is temporarily busy (rate limit, timeout); NFSv3 has no DELAY code, so this is NFS3ERR_JUKEBOX on the wire
 
